@@ -79,3 +79,85 @@ Theorem C20_examples :
   accepts [uForce; uLength; uStress] (Cmp (Div (Var 2) (Var 2)) (Lit 0)) = true.
 Proof. vm_compute. repeat split. Qed.
 Print Assumptions C20_examples.
+
+(* ================= extension: quantities inside tvector / stensor / st2tost2, math functions, views ================= *)
+
+(* soundness and completeness of the extended typing: an expression is typed exactly when the specification (plain
+   rational arithmetic: product -> +, quotient -> -, power/sqrt/cbrt -> *r, abs -> same, contraction / inner / dyadic
+   product -> +, exp/log/... -> dimensionless only, sums -> same dimension and shape) finds it homogeneous, with the
+   same shape and the same dimension; every computed unit is 7 exponents in lowest terms *)
+Theorem C20_ext_typing_sound_and_complete : forall G e, Forall wf_decl G ->
+  match typeofX G e, dim_of (map sdecl G) e with
+  | Some (s, t), Some (s', d) => s = s' /\ wf_ty t /\ dim_eq (ty_dim t) d
+  | None, None => True
+  | _, _ => False
+  end.
+Proof. exact typeofX_spec. Qed.
+Print Assumptions C20_ext_typing_sound_and_complete.
+
+Theorem C20_ext_typed_is_homogeneous : forall G e s t, Forall wf_decl G -> typeofX G e = Some (s, t) ->
+  wf_ty t /\ exists d, dim_of (map sdecl G) e = Some (s, d) /\ dim_eq (ty_dim t) d.
+Proof. exact typeofX_wf. Qed.
+Print Assumptions C20_ext_typed_is_homogeneous.
+
+Theorem C20_ext_rejected_iff_inhomogeneous : forall G e, Forall wf_decl G ->
+  (typeofX G e = None <-> dim_of (map sdecl G) e = None).
+Proof. exact typeofX_none. Qed.
+Print Assumptions C20_ext_rejected_iff_inhomogeneous.
+
+(* transparency of the extended language: the reference semantics (shape and unit carried by every value and checked
+   at every operation) computes the value of the erased program; an untyped expression has no value *)
+Theorem C20_ext_transparency : forall (V : Type) vadd vsub vmul vdiv vinner vdyad vneg vsqrt vcbrt vabs velem vpow vfn vlit G env e,
+  qevalX V vadd vsub vmul vdiv vinner vdyad vneg vsqrt vcbrt vabs velem vpow vfn vlit G env e =
+  match typeofX G e with
+  | Some t => Some (t, erase_evalX V vadd vsub vmul vdiv vinner vdyad vneg vsqrt vcbrt vabs velem vpow vfn vlit env e)
+  | None => None
+  end.
+Proof. exact erasureX. Qed.
+Print Assumptions C20_ext_transparency.
+
+(* what is rejected: exp/log/sin/... of a quantity exactly when it is not dimensionless; sums of tensors exactly when
+   shapes or dimensions differ; assignment of a tensor expression exactly when the target is not writable, or the
+   shape or the dimension differs *)
+Theorem C20_ext_rejections : forall G, Forall wf_decl G ->
+  (forall k a t, typeofX G a = Some (Sc, t) -> (typeofX G (XFn k a) <> None <-> dim_eq (ty_dim t) dim_one)) /\
+  (forall a b s1 t1 s2 t2, typeofX G a = Some (s1, t1) -> typeofX G b = Some (s2, t2) ->
+     (typeofX G (XAdd a b) <> None <-> s1 = s2 /\ dim_eq (ty_dim t1) (ty_dim t2)) /\
+     (typeofX G (XSub a b) <> None <-> s1 = s2 /\ dim_eq (ty_dim t1) (ty_dim t2))) /\
+  (forall i e d s t, nth_error G i = Some d -> typeofX G e = Some (s, t) ->
+     (acceptsX G (XAssign i e) = true <-> d_mut d = true /\ d_shape d = s /\ dim_eq (ty_dim (d_ty d)) (ty_dim t))).
+Proof.
+  intros G HG. split; [intros; now apply fn_accepts|]. split; [intros; now apply sum_accepts | intros; now apply assign_acceptsX].
+Qed.
+Print Assumptions C20_ext_rejections.
+
+(* examples: stiffness * strain is a stress tensor; sqrt(Stress*Stress) = Stress; the cube root of a volume is a length;
+   exp(Stress) is rejected, exp(Stress/Stress) accepted (a double); stress tensor + strain tensor rejected; s | e is a
+   stress; s ^ s is a fourth order tensor in Pa^2; sqrt(l) / cbrt(l) has exponent 1/6 *)
+Definition uNone : unit := [0#1; 0#1; 0#1; 0#1; 0#1; 0#1; 0#1].
+Definition GX : list decl := [mkdecl T4 (TQ uStress) true; mkdecl Sym (TQ uNone) true; mkdecl Sc (TQ uStress) true;
+                              mkdecl Sc (TQ uLength) true; mkdecl Sym (TQ uStress) true; mkdecl Sym (TQ uStress) false].
+Theorem C20_ext_examples :
+  typeofX GX (XMul (XVar 0) (XVar 1)) = Some (Sym, TQ uStress) /\
+  typeofX GX (XSqrt (XMul (XVar 2) (XVar 2))) = Some (Sc, TQ uStress) /\
+  typeofX GX (XCbrt (XMul (XMul (XVar 3) (XVar 3)) (XVar 3))) = Some (Sc, TQ uLength) /\
+  typeofX GX (XFn 0 (XVar 2)) = None /\
+  typeofX GX (XFn 0 (XDiv (XVar 2) (XVar 2))) = Some (Sc, TS) /\
+  typeofX GX (XAdd (XVar 4) (XVar 1)) = None /\
+  typeofX GX (XInner (XVar 4) (XVar 1)) = Some (Sc, TQ uStress) /\
+  typeofX GX (XDyad (XVar 4) (XVar 4)) = Some (T4, TQ [2#1; (-2)#1; (-4)#1; 0#1; 0#1; 0#1; 0#1]) /\
+  typeofX GX (XDiv (XSqrt (XVar 3)) (XCbrt (XVar 3))) = Some (Sc, TQ [0#1; 1#6; 0#1; 0#1; 0#1; 0#1; 0#1]) /\
+  typeofX GX (XElem (XMul (XVar 0) (XVar 1))) = Some (Sc, TQ uStress) /\
+  acceptsX GX (XAssign 4 (XMul (XVar 0) (XVar 1))) = true /\
+  acceptsX GX (XAssign 4 (XVar 1)) = false /\
+  acceptsX GX (XAssign 5 (XVar 4)) = false /\
+  acceptsX GX (XAssign 4 (XDyad (XVar 4) (XVar 1))) = false /\
+  acceptsX GX (XAssignElem 4 (XVar 2)) = true /\
+  acceptsX GX (XAssignElem 4 (XVar 3)) = false.
+Proof. vm_compute. repeat split. Qed.
+Print Assumptions C20_ext_examples.
+
+(* the extended typing restricted to scalar programs is the scalar typing (so the scalar theorems above speak about the same rules) *)
+Theorem C20_ext_conservative : forall G e, typeofX (sdecls G) (embed e) = option_map (pair Sc) (typeof G e).
+Proof. exact embed_typeof. Qed.
+Print Assumptions C20_ext_conservative.
